@@ -58,6 +58,12 @@ def replay(arg):
     egos = [EgoPose(50.0 * (i + 1), -30.0 + 17.0 * i, 0.0, 0.9 + 1.7 * i) if rendering == "map" else None for i in range(len(ds))]
     for i, gts in enumerate(ds):
         _, g = pipeline.render_objects({"ests": [], "gts": gts}, rendering, egos[i])
+        if how == "base_link-looked-up":
+            # the dataset frames themselves come from interpolating lookups between loaded base_link frames that have been used before; every
+            # second object is annotated in the earlier loaded frame only
+            drive = EgoPose(50.0 * (i + 1), -30.0 + 17.0 * i, 0.0, 0.9 + 1.7 * i)
+            gframes.append(pipeline.looked_up_gt(g, drive, 1000 * (i + 1), name=str(i), storage="base_link", one_sided=True))
+            continue
         gframes.append(frame_gt(g, time=1000 * (i + 1), name=str(i), ego=egos[i]))
     mgr.ground_truth_frames = gframes
     original = [[vid(x) for x in f.objects] for f in gframes]
@@ -141,7 +147,7 @@ def replay_worlds(ctx: Ctx, maxcalls, want=lambda clause: True, tag=""):
             items.append(st)
         # constants as python values (parsed back from the dumped frames is not possible for unused variants: parse the TLA text once via TLC dump of cfg only)
         consts_py = dict(name=name, cfg=cw["cfg"], dataset=_parse_tla(w["Dataset"]), ests=_parse_tla(w["EstVariants"]), crits=_parse_tla(w["CritVariants"]), pf=_parse_tla(w["Pf"]))
-        jobs = [(consts_py, plain(st["frameResults"]), plain(st["scene"]), how) for st in items for how in ("base_link", "map-shared-configs", "base_link:tight-confidences")]
+        jobs = [(consts_py, plain(st["frameResults"]), plain(st["scene"]), how) for st in items for how in ("base_link", "map-shared-configs", "base_link:tight-confidences", "base_link-looked-up")]
         outs = pmap(replay, jobs)
         for job, (n, mism) in zip(jobs, outs):
             ctx.traces += n
